@@ -131,7 +131,22 @@ func (ex *Exec) evalExpr(st *State, e ast.Expr) Val {
 	case *ast.FuncLit:
 		return &FuncV{Name: "lit@" + ex.pos(n), Lit: n}
 	case *ast.TypeAssertExpr:
-		return ex.evalExpr(st, n.X)
+		v := ex.evalExpr(st, n.X)
+		if o, ok := v.(*ObjV); ok && n.Type != nil && adtOf[o.K.Name] != nil {
+			tt := ex.info.TypeOf(n.Type)
+			d := boxDeclOfType(tt)
+			if d == nil {
+				panic(unsupported("type assertion to %s on a datatype-modelled interface at %s", tt, ex.pos(n)))
+			}
+			r, tester := ex.unboxValue(st, o.ID, d, namedStructOf(tt), True)
+			if tup, isTuple := ex.info.TypeOf(n).(*types.Tuple); isTuple && tup.Len() == 2 {
+				return &TupleV{[]Val{&RefV{Cell: r.Cell, NilT: Not(tester)}, SV{T: tester}}}
+			}
+			ex.oblige(st, "type-assertion", ex.site("type-assertion"), tester, n)
+			st.assume(tester)
+			return r
+		}
+		return v
 	case *ast.KeyValueExpr:
 		panic(unsupported("key-value outside composite literal"))
 	}
@@ -398,6 +413,15 @@ func (ex *Exec) coerce(st *State, v Val, from, to types.Type) Val {
 			return zeroVal(k)
 		}
 		return v
+	}
+	// a pointer to a boxed struct stored in an interface modelled as a datatype (adt.go)
+	if tk := kindOf(to); tk.K == "obj" && adtOf[tk.Name] != nil {
+		if r, ok := v.(*RefV); ok {
+			if d := boxDeclOfType(from); d != nil {
+				return ex.box(st, r, d, tk, nil)
+			}
+			panic(unsupported("%s stored in %s, which is modelled as a datatype, has no box declaration", from, tk.Name))
+		}
 	}
 	// a repository struct (or pointer to one) stored in an interface: an opaque object identified by its fields
 	if _, toIface := to.Underlying().(*types.Interface); toIface && !isVariableType(to) && !isErrorType(to) {
